@@ -105,7 +105,10 @@ def main(v: Verdict) -> None:
     files = {"__init__.py": "", "basemod.py": BASE}
     for k, m in enumerate(mods):
         m["id"] = k + 1
-        if "pkgfile" in m["flags"]:      # the declarations live in the package file itself
+        m["file"] = f"wm{k + 1:04d}" + ("__init__" if "initlike-filename" in m["flags"] else "")
+        if "initlike-filename" in m["flags"]:
+            files[f"{m['file']}.py"] = module_src(m)
+        elif "pkgfile" in m["flags"]:      # the declarations live in the package file itself
             files[f"wm{k + 1:04d}/__init__.py"] = module_src(m)
             files[f"wm{k + 1:04d}/fillmod.py"] = "def fill() -> int:\n    ...\n"
         else:
@@ -125,7 +128,7 @@ def main(v: Verdict) -> None:
                        for k in ("modules", "classes", "functions", "results", "enums", "enum_instances", "attributes", "parameters"))
     obs = []
     for m in mods:
-        o = observe(api, f"{PKG}/wm{m['id']:04d}", valid)
+        o = observe(api, f"{PKG}/{m['file']}", valid)
         o["sorted"] = lists_sorted
         o["schema"] = api.get("schemaVersion", 0) if isinstance(api.get("schemaVersion", 0), int) else 0
         obs.append({"id": m["id"], "kind": "inventory", "sc": {k: m[k] for k in ("k", "name", "flags", "ch")}, "obs": o})
@@ -141,7 +144,7 @@ def main(v: Verdict) -> None:
             cur = None
     n_walk = 0
     for m in mods:
-        evs = per_mod.get(f"{PKG}.wm{m['id']:04d}")
+        evs = per_mod.get(f"{PKG}.{m['file']}")
         if evs is not None:
             n_walk += len(evs)
             obs.append({"id": f"walk:{m['id']}", "kind": "walk", "sc": {k: m[k] for k in ("k", "name", "flags", "ch")}, "obs": {"walk": evs}})
